@@ -139,13 +139,16 @@ func RunC18(d *Driver) *Report {
 		{"c.evy", "print 1\n", 0o600, false},
 		{"d.evy", "a := [1\n 2\n   3]\nfor i:=range a\nprint i\nend\n", 0o664, false},
 		{"link.evy", "y:=2\nprint   y\n", 0o644, true},
+		{"ro.evy", "if true\nprint 1\nelse\nprint 2\nend\n", 0o444, false}, // read-only for everybody
+		{"ro2.evy", "z:=3\nprint   z\n", 0o400, false},
+		{"wide.evy", "w:=4\nprint   w\n", 0o666, false},
 	}
 	if Thorough() {
 		big := "x := 0\n"
 		for i := 0; i < 3000; i++ {
 			big += fmt.Sprintf("x  =  x +  %d\n", i)
 		}
-		files = append(files, tf{"big.evy", big, 0o640, false}, tf{"e.evy", "if true\nprint 1\nelse\nprint 2\nend\n", 0o444, false})
+		files = append(files, tf{"big.evy", big, 0o640, false}, tf{"e.evy", "if true\nprint 1\nelse\nprint 2\nend\n", 0o555, false}, tf{"f.evy", "print   1\n", 0o775, false}, tf{"g.evy", "print   2\n", 0o464, false})
 	}
 	faults := []string{"error=ENOSPC", "error=EIO", "error=EACCES", "signal=KILL"}
 	r.Rule = fmt.Sprintf("the evy binary is rebuilt from the working tree; for %d source files of different modes (one reached through a symbolic link) and every file-system system call of `evy fmt -w` after the target has been read (found with a fault-free strace run), each of %v is injected with `strace -e inject=…:when=k`: afterwards the file must hold its original or the complete formatted text with unchanged permission bits, and exit status 0 must mean formatted. The fault-free system-call sequence is compared with the call list the Lean theorems are about. Also: unparsable files untouched with non-zero status; `fmt -c` exits 0 exactly for formatted input and writes nothing, also over several files in every order; -w on stdin rejected. Non-trivial = distinct (file, syscall, occurrence, fault)", len(files), faults)
